@@ -52,7 +52,45 @@ for mp in sorted(glob.glob(os.path.join(V, "seeded", "*", "meta.json"))):
 st.append("")
 st.append("%d of %d seeded changes are detected by the registered quick checks." % (c, n))
 tail = tail.replace("{{FIXED_TABLE}}", "Fixed (one `fix:` commit each):\n\n" + "\n".join(ft)).replace("{{KNOWN_TABLE}}", "\n".join(kt)).replace("{{SEED_TABLE}}", "\n".join(st))
-txt = "\n".join(out) + "\n" + tail
+# function coverage map from the evidence files of the last quick runs on /repo
+import re
+enc = set()
+for f in glob.glob(os.path.join(V, "evidence", "*.json")):
+    try:
+        for fn in json.load(open(f))["coverage"].get("functions_encoded", []):
+            enc.add(fn)
+    except Exception:
+        pass
+short = set()
+for f in enc:
+    if "tinode/chat" in f:
+        m = re.search(r"\.([A-Za-z0-9_]+)(\$\d+)?$", f)
+        if m:
+            short.add(m.group(1))
+cov = ["--------------------------------------------------------------------------------------", "",
+       "## 9. Which functions of tinode/chat the checks execute", "",
+       "Generated from the `functions_encoded` lists of the evidence files (last quick run of every check on `/repo`;",
+       "matching by function name). It shows where a change could hide from every check: a function that no harness",
+       "executes can be altered without any check noticing.", ""]
+tot = hit = 0
+rows = []
+for sub in ["server", "server/store", "server/store/types", "server/auth/token", "server/auth/code", "server/auth/basic", "server/media", "server/ringhash", "server/drafty", "server/db/mysql"]:
+    d = os.path.join("/repo", sub)
+    if not os.path.isdir(d):
+        continue
+    for fn in sorted(os.listdir(d)):
+        if not fn.endswith(".go") or fn.endswith("_test.go"):
+            continue
+        names = [m.group(2) for m in re.finditer(r"^func (\([^)]*\) )?([A-Za-z0-9_]+)\(", open(os.path.join(d, fn)).read(), re.M)]
+        if not names:
+            continue
+        miss = [n for n in names if n not in short]
+        tot += len(names)
+        hit += len(names) - len(miss)
+        rows.append("| `%s/%s` | %d / %d | %s |" % (sub, fn, len(names) - len(miss), len(names), " ".join(sorted(set(miss))[:40])))
+cov.append("%d of %d functions in the listed packages are executed by at least one harness." % (hit, tot))
+cov += ["", "| file | executed / total | not executed by any harness |", "|---|---|---|"] + rows + [""]
+txt = "\n".join(out) + "\n" + tail + "\n" + "\n".join(cov)
 txt = txt.replace("{{NFIXED}}", str(len(kf["fixed"]))).replace("{{NSEEDS}}", str(n)).replace("{{NCAUGHT}}", str(c))
 open(os.path.join(V, "DESIGN.md"), "w").write(txt)
 print("DESIGN.md: %d lines; fixed=%d known=%d seeds=%d caught=%d" % (txt.count("\n"), len(kf["fixed"]), len(kf["findings"]), n, c))
